@@ -173,7 +173,7 @@ func newPKI(t *kernel.Tape, epoch time.Time, rich bool) *pki {
 		p.serial++
 		p.pre = oracle.Build(oracle.CertSpec{CN: "PreIssuer", Serial: p.serial, Key: p.rr.key(kind), Issuer: p.inter,
 			NotBefore: epoch.AddDate(-1, 0, 0), NotAfter: epoch.AddDate(5, 0, 0), IsCA: true,
-			Exts: permute(t, []oracle.ExtKind{"bc", "ku", "ski", "aki", "ekuct"})})
+			Exts: permute(t, []oracle.ExtKind{"bc", "ku", "ski", "aki", []oracle.ExtKind{"ekuct", "ekuct", "ekuct+"}[t.Intn(3)]})})
 	}
 	return p
 }
